@@ -211,8 +211,8 @@ def run(tier):
     hgen = run_tlc("IncludesNames", hc, "c19", workers=8, cases_suffix="-names", timeout=3000, xmx="12g")
     if hgen.violated:
         v.drift.append("L1: IncludesNames.tla violates %s" % hgen.violated)
-    hcases = list(read_ndjson(hgen.cases_path))
-    hcap = 4000 if tier == "quick" else 30000
+    hcases = list(read_ndjson(hgen.cases_path))          # all of them go through the in-process pipeline; a sample through the binary
+    hcap = 20000 if tier == "quick" else 200000
     if len(hcases) > hcap:
         hcases = rnd.sample(hcases, hcap)
 
@@ -259,7 +259,7 @@ def run(tier):
     def hone(job):
         i, c, files = job
         return proj.run_binary(files, os.path.join(wd, "bin", "h%d" % i), {"level": "warning", "verbose": i % 2 == 0}, libs=["lib"], timeout=30)
-    hb = hjobs if tier == "quick" else rnd.sample(hjobs, min(len(hjobs), 6000))
+    hb = rnd.sample(hjobs, min(len(hjobs), 1500 if tier == "quick" else 8000))
     for (i, c, files), r in zip(hb, proj.par_runs(hb, hone, workers=10)):
         info = {"case": c, "files": files, "libs": ["lib"], "argv": r["argv"], "stdout": r["stdout"][-2500:], "stderr": r["stderr"][-400:], "exit": r["code"]}
         if r["timeout"]:
